@@ -68,6 +68,14 @@ class Lock:
         self.f.close()
 
 
+# ------------------------------------------------------------- translator
+def sync(names=None):
+    """Step 1 of a check: regenerate coq/Gen/*.v from /repo. Returns {"changed":[], "errors":{}}."""
+    import sync_tables
+    with Lock("coq"):
+        return sync_tables.run(names)
+
+
 # ----------------------------------------------------------------- coq side
 def coq_makefile():
     import gen_coqproject
